@@ -6,7 +6,7 @@ import random
 
 from .. import core, tlc
 
-BASE = dict(Kinds={"insert", "insert_cols", "ctas"}, Schemas={"none", "s"}, Bare={"a", "b"}, TAliases={"x", "b"}, SAliases={"x", "y"},
+BASE = dict(Kinds={"insert", "insert_cols", "ctas", "update"}, Schemas={"none", "s"}, Bare={"a", "b"}, TAliases={"x", "b"}, SAliases={"x", "y"},
             ColNames={"c", "d"}, MaxRels=2, MaxItems=2, MaxRefs=1, Known=set(), Emit=False, WithUnion=False, WithMeta=False, WithLiteral=False,
             WithForeign=False)
 
@@ -56,6 +56,14 @@ def _run_chunk(args):
             o["reads"] = [back(t) for t in o["reads"]]
             o["target"] = [back(t) for t in o["target"]]
             o["mech"] = j.get("mech")
+        sp = j.get("opts", {}).get("spell")
+        if sp:
+            # projection: a statement-local name is reported as written (less its quotes); the specification knows it by
+            # its abstract name
+            inv = {v.strip('"`'): k for k, v in sp.items()}
+            for x in o["flow"]:
+                x["t"] = inv.get(x["t"], x["t"])
+                x["cands"] = sorted(inv.get(c, c) for c in x["cands"])
         o["sql"] = sql
         o["dialect"] = dia
         o["metadata"] = md
@@ -103,11 +111,28 @@ def prog_features(p):
     if any(r["k"] == "sub" for r in rels) and any(r["k"] == "tbl" for r in rels) and "unqualified_wildcard" in f:
         f.add("unqualified_wildcard_over_table_and_derived_table")
     other_scope_bare = {r["n"] for r in rels if r["k"] == "sub"} | ({p["branch2"][0]["n"]} if p["branch2"] else set())
+    if p["branch2"] and p["branch2"][0].get("al", "none") != "none" and any(r["al"] == p["branch2"][0]["al"] for r in rels):
+        f.add("alias_reused_in_another_branch")
     if any(r["al"] != "none" and r["al"] in other_scope_bare for r in rels):
         f.add("alias_equals_bare_name_of_a_table_read_unaliased_in_another_scope")
     if p["branch2"] and any(r["k"] == "tbl" and r["n"] == p["branch2"][0]["n"] and r["s"] != p["branch2"][0]["s"] for r in rels):
         f.add("later_branch_reads_a_table_whose_bare_name_an_earlier_branch_table_of_another_schema_has")
     return sorted(f) or ["none"]
+
+
+def opt_features(o):
+    f = set()
+    if o.get("cte"):
+        f.add("written:derived_tables_as_ctes_read_without_alias")
+    if o.get("spell"):
+        f.add("written:quoted_aliases")
+    if o.get("inner_join") is not None:
+        f.add("written:derived_table_joins_a_table_under_a_name_of_the_outer_scope")
+    if o.get("where_sub"):
+        f.add("written:where_subquery_reads_a_table_under_a_name_of_the_outer_scope")
+    if o.get("paren_source"):
+        f.add("written:parenthesised_source_query")
+    return f
 
 
 def decide(chk, jobs, obs, label):
@@ -132,7 +157,8 @@ def decide(chk, jobs, obs, label):
             out.append("ok")
             continue
         chk.reject({"module": "Col", "clause": verdict.split(":")[0], "dialect": o["dialect"], "exception": o["exc"], "kind": j["prog"]["kind"],
-                    "features": prog_features(j["prog"]), "form": j.get("opts", {}).get("form1", "plain")},
+                    "features": sorted(set(prog_features(j["prog"])) | opt_features(j.get("opts", {}))),
+                    "form": j.get("opts", {}).get("form1", "plain")},
                    {"sql": o["sql"], "dialect": o["dialect"], "metadata": o["metadata"], "program": j["prog"], "ideal_flow": j.get("flow"),
                     "observed_flow": o["flow"], "verdict": verdict,
                     "how": "harness.render_col.render(program) -> LineageRunner(sql).get_column_lineage(): (first, last) of every path"})
